@@ -141,6 +141,29 @@ def process_chunk_c10(args):
                                 kname, " - a literal is emitted in clear" if leaked else "", flags),
                                  {"input_line": sub[n][:4000], "output": (recd.get("o") or recd.get("p") or "")[:4000], "placeholder_output": want[:4000], "key": kname})
                             break
+        # one key file reached through a symbolic link: still one key - two separate runs give the same ciphertexts as the run with the file itself
+        if chunk_no % 8 == 1 and cases:
+            pcfg, ecfg = cfgs[0]
+            kf = os.path.join(workdir, "k-%s.key" % ecfg.name)
+            if os.path.exists(kf):
+                link = os.path.join(workdir, "k-link.key")
+                if os.path.lexists(link):
+                    os.remove(link)
+                os.symlink(kf, link)
+                before = open(kf, "rb").read()
+                sub = texts[:200]
+                ids_ = list(range(len(sub)))
+                crashed = {}
+                ref, _ = l3.run_with_bisect(b, sub, ids_, ecfg, workdir, kf, crashed)
+                l1, _ = l3.run_with_bisect(b, sub, ids_, ecfg, workdir, link, crashed)
+                l2, _ = l3.run_with_bisect(b, sub, ids_, ecfg, workdir, link, crashed)
+                res["evals"] += 1
+                if open(kf, "rb").read() != before or not os.path.islink(link):
+                    viol("a key file reached through a symbolic link is replaced", {"key_path": "symlink -> valid key file"})
+                elif l1 != ref or l2 != ref:
+                    n = next((i for i in ids_ if l1.get(i) != ref.get(i) or l2.get(i) != ref.get(i)), 0)
+                    viol("two runs with one key file (reached through a symbolic link) give different ciphertexts", {"input_line": sub[n][:3000],
+                         "with_the_file": (ref.get(n) or "")[:2000], "through_the_link_run1": (l1.get(n) or "")[:2000], "through_the_link_run2": (l2.get(n) or "")[:2000]})
         # through the CLI: --encrypt with an empty --encryptionKeyFile value (no key can be loaded): nothing may come out in clear
         if chunk_no % 8 == 0 and cases:
             pcfg = cfgs[0][0]
